@@ -44,9 +44,10 @@ structure Node where
   udn : Str
   type : Str
   svcs : List Str
+  ids : List Str      -- service ids (class lines only)
 
 /-- rebuild a forest from a pre-order list with depths -/
-partial def forest (depth : Nat) (l : List Node) : List DevTree × List Node :=
+partial def forest (depth : Nat) (l : List Node) : List ClsTree × List Node :=
   match l with
   | [] => ([], [])
   | n :: rest =>
@@ -54,12 +55,19 @@ partial def forest (depth : Nat) (l : List Node) : List DevTree × List Node :=
     else
       let (kids, rest1) := forest (n.depth + 1) rest
       let (sibs, rest2) := forest depth rest1
-      (DevTree.node n.udn n.type n.svcs kids :: sibs, rest2)
+      let ids := n.ids ++ List.replicate (n.svcs.length - n.ids.length) []
+      (ClsTree.node n.udn n.type (n.svcs.zip ids) kids :: sibs, rest2)
 
-def treeOf (l : List Node) : Option DevTree :=
+def clsOf (l : List Node) : Option ClsTree :=
   match forest 0 l with
   | ([t], []) => some t
   | _ => none
+
+/-- an observed instance tree: the same shape, nothing merged or dropped -/
+partial def asDev : ClsTree → DevTree
+  | .node u t s cs => .node u t (s.map (·.1)) (cs.map asDev)
+
+def treeOf (l : List Node) : Option DevTree := (clsOf l).map asDev
 
 /-- one observed datagram before it is parsed -/
 structure RawMsg where
@@ -97,7 +105,7 @@ def toObs (m : RawMsg) : ObsMsg :=
       usn := header hs "usn".toList, nts := nts, location := header hs "location".toList, heard := m.heard }
   | none => { time := m.time, dest := m.dest, startLine := [], st := [], usn := [], nts := [], location := [], heard := m.heard }
 
-def parseNode (d u t s : String) : Node := ⟨d.toNat!, str u, str t, strList s⟩
+def parseNode (d u t s : String) (ids : String := "~") : Node := ⟨d.toNat!, str u, str t, strList s, strList ids⟩
 
 def setHeard (a : Array RawMsg) (h : Heard) : Array RawMsg :=
   if a.size = 0 then a else a.modify (a.size - 1) fun m => { m with heard := h }
@@ -109,7 +117,7 @@ def step (st : St) (toks : List String) : St :=
                      cacheControl := Gen.C13Server.cacheControl, date := str date,
                      bootId := str boot, configId := str conf, host := str host }
     { st with alwaysRoot := (ar == "1"), cfg := some (c, str target) }
-  | ["cls", d, u, t, s] => { st with cls := st.cls.push (parseNode d u t s) }
+  | ["cls", d, u, t, s, ids] => { st with cls := st.cls.push (parseNode d u t s ids) }
   | ["dev", d, u, t, s] => { st with dev := st.dev.push (parseNode d u t s) }
   | ["search", _id, time, reqr, line, man, stt, mx, sel] =>
     let inp : SearchIn := { time := time.toInt!, requester := str reqr,
@@ -157,7 +165,7 @@ def cmpMsgs (what : String) (impl : List RawMsg) (model : List (ObsMsg × Str)) 
       else none).take 2
 
 def finish (st : St) : Bool × Bool × List String :=
-  match st.cfg, treeOf st.cls.toList, treeOf st.dev.toList with
+  match st.cfg, clsOf st.cls.toList, treeOf st.dev.toList with
   | some (cfg, target), some cls, some dev =>
     let k : Consts := { consts with alwaysRoot := st.alwaysRoot }
     -- correspondence
